@@ -9,6 +9,7 @@ import (
 	"strings"
 	"time"
 	"unicode"
+	"unicode/utf8"
 
 	ucfg "github.com/elastic/go-ucfg"
 )
@@ -425,15 +426,36 @@ func (g *tgen) tagName(base string, num int) string {
 // a name in its tag is the lower-cased Go name).
 func (g *tgen) goName(num int) string {
 	n := strconv.Itoa(num)
-	switch g.r.Intn(8) {
+	switch g.r.Intn(10) {
 	case 0:
 		return "MaxF" + n
 	case 1:
 		return "F\u00dc" + n
 	case 2:
 		return "F_x" + n
+	case 3, 4:
+		// exported identifiers that begin with a capital letter outside ASCII
+		// (Latin-1, Latin Extended, Greek, Cyrillic), continued in either case
+		first := []string{"\u00c4", "\u00dc", "\u00d6", "\u00d1", "\u00c9", "\u0141", "\u03a9", "\u0394", "\u0416", "\u042f"}[g.r.Intn(10)]
+		return first + []string{"f", "F", "\u00e4f", "x_"}[g.r.Intn(4)] + n
 	}
 	return "F" + n
+}
+
+// goNameStyle classifies the first letter of a Go field name.
+func goNameStyle(name string) string {
+	c, _ := utf8.DecodeRuneInString(name)
+	switch {
+	case c < utf8.RuneSelf:
+		return "ascii"
+	case unicode.Is(unicode.Greek, c):
+		return "greek-capital"
+	case unicode.Is(unicode.Cyrillic, c):
+		return "cyrillic-capital"
+	case c < 0x100:
+		return "latin1-capital"
+	}
+	return "latin-extended-capital"
 }
 
 // nameStyle classifies a setting name for the monitors.
